@@ -138,7 +138,7 @@ func genRecCase(rng *rand.Rand, env string) *recCase {
 	}
 	c.Where = []string{"route", "route", "action", "notfound", "group"}[rng.Intn(5)]
 	c.Phase = []string{"before", "before", "after-header", "after-body"}[rng.Intn(4)]
-	c.Kind = []string{"string", "error", "runtime", "struct", "int", "abort", "dep", "nilerr", "neterr-epipe", "neterr-reset", "slice", "map", "structslice", "sliceerr", "bad-status-writeheader", "bad-status-return", "before-function-panics", "long-cjk", "line-directive", "invoke-non-function", "invoke-nil", "apply-non-struct", "urlpath-unknown-name", "marshal-json-panics", "marshal-xml-panics"}[rng.Intn(25)]
+	c.Kind = []string{"string", "error", "runtime", "struct", "int", "abort", "dep", "nilerr", "neterr-epipe", "neterr-reset", "slice", "map", "structslice", "sliceerr", "bad-status-writeheader", "bad-status-return", "before-function-panics", "long-cjk", "line-directive", "invoke-non-function", "invoke-nil", "apply-non-struct", "urlpath-unknown-name", "marshal-json-panics", "marshal-xml-panics", "long-function-name"}[rng.Intn(26)]
 	c.Method = []string{"GET", "GET", "GET", "HEAD"}[rng.Intn(4)]
 	switch x := rng.Intn(200); {
 	case x == 0:
@@ -494,6 +494,14 @@ func judgeRec(w *core.W, c *recCase) {
 			panic(n)
 		case "abort":
 			panic(http.ErrAbortHandler)
+		case "long-function-name":
+			// the frames on the panicking stack have names of 60-130 bytes (a long function, a method value of a long type)
+			if len(c.Marker)%2 == 0 {
+				c15RaiseInAFunctionWhoseNameIsLongerThanAnyColumnAStackPrinterWouldReserveForIt(c.Marker)
+			} else {
+				fn := c15AReceiverTypeWithALongNameForTheSakeOfTheStackPrinter{}.RaiseFromAMethodValueWhoseNameIsEvenLongerOnceThePackageAndTheTypeAreInFront
+				fn(c.Marker)
+			}
 		case "long-cjk":
 			panic(strings.Repeat("\u754c", 120) + c.Marker) // more than 256 bytes, fewer than 256 characters
 		case "line-directive":
@@ -720,7 +728,7 @@ func runC15(r *core.Run) {
 	ws.Done()
 	ws.Merge()
 	flamego.SetEnv(orig)
-	for _, k := range []string{"environment-switched-after-assembly", "process-environment-variable-set-after-start", "kind:string", "kind:error", "kind:runtime", "kind:struct", "kind:int", "kind:abort", "kind:dep", "kind:nilerr", "kind:neterr-epipe", "kind:neterr-reset", "kind:slice", "kind:map", "kind:structslice", "kind:sliceerr", "kind:bad-status-writeheader", "kind:bad-status-return", "kind:before-function-panics", "kind:long-cjk", "kind:line-directive", "kind:invoke-non-function", "kind:invoke-nil", "kind:apply-non-struct", "kind:urlpath-unknown-name", "kind:marshal-json-panics", "kind:marshal-xml-panics", "method:HEAD", "deep-stack", "second-recovery-nearer-the-panic", "request-context-cancelled-while-unwinding", "buffering-writer-in-front-of-recovery", "phase:before", "phase:after-header", "phase:after-body", "where:route", "where:group", "where:action", "where:notfound", "depth:flat", "depth:nested-next", "follow-up-requests"} {
+	for _, k := range []string{"environment-switched-after-assembly", "process-environment-variable-set-after-start", "kind:string", "kind:error", "kind:runtime", "kind:struct", "kind:int", "kind:abort", "kind:dep", "kind:nilerr", "kind:neterr-epipe", "kind:neterr-reset", "kind:slice", "kind:map", "kind:structslice", "kind:sliceerr", "kind:bad-status-writeheader", "kind:bad-status-return", "kind:before-function-panics", "kind:long-cjk", "kind:line-directive", "kind:invoke-non-function", "kind:invoke-nil", "kind:apply-non-struct", "kind:urlpath-unknown-name", "kind:marshal-json-panics", "kind:marshal-xml-panics", "kind:long-function-name", "method:HEAD", "deep-stack", "second-recovery-nearer-the-panic", "request-context-cancelled-while-unwinding", "buffering-writer-in-front-of-recovery", "phase:before", "phase:after-header", "phase:after-body", "where:route", "where:group", "where:action", "where:notfound", "depth:flat", "depth:nested-next", "follow-up-requests"} {
 		min := int64(100)
 		if k == "process-environment-variable-set-after-start" {
 			min = 40 // expected ~130 per quick run: keep the gate far below what any seed yields
@@ -741,4 +749,17 @@ func c15Canaries(r *core.Run) {
 	d := &recCase{Env: "development", Phase: "after-header", Kind: "error", Marker: "MK654321Z"}
 	r.Canary("dev: detail missing", recVerdict(d, recObs{status: 201, body: "Internal Server Error"}) != "")
 	r.Canary("status overwritten after partial write", recVerdict(d, recObs{status: 500, body: "<html>MK654321Z"}) != "")
+}
+
+
+//go:noinline
+func c15RaiseInAFunctionWhoseNameIsLongerThanAnyColumnAStackPrinterWouldReserveForIt(marker string) {
+	panic(marker)
+}
+
+type c15AReceiverTypeWithALongNameForTheSakeOfTheStackPrinter struct{}
+
+//go:noinline
+func (c15AReceiverTypeWithALongNameForTheSakeOfTheStackPrinter) RaiseFromAMethodValueWhoseNameIsEvenLongerOnceThePackageAndTheTypeAreInFront(marker string) {
+	panic(marker)
 }
